@@ -246,7 +246,7 @@ type Event struct {
 	Term       Term
 	Raw        string
 	Ob         *Obligation
-	Structural bool // typing / allocation / axiom-instance fact: kept in modular contexts
+	Structural bool        // typing / allocation / axiom-instance fact: kept in modular contexts
 	Scope      *Obligation // non-nil: a fact produced while evaluating a "check at" clause, used for that obligation only
 }
 
